@@ -29,12 +29,40 @@ fn check_fresh(s: &mut Session, key: &str, what: &str, vals: &[Vec<u8>]) {
     }
 }
 
+/// the two nonce generators called directly: call number n hands out exactly the n-th value of the
+/// sequence the specifications define (Shadowsocks: 12-byte little-endian counter from 0; VMess: 16-bit
+/// big-endian counter over the first two IV bytes, wrapping like a uint16), also far beyond 2^16 calls
+pub fn nonce_generator_cases(s: &mut Session, tier: &str, rng: &mut Rng) {
+    s.begin_case("nonce-generators");
+    let mut ns: Vec<u64> = vec![0, 1, 2, 254, 255, 256, 257, 65534, 65535, 65536, 65537, 65538, 131071, 131072, 131073];
+    for _ in 0..if tier == "thorough" { 40 } else { 6 } {
+        ns.push(rng.below(if tier == "thorough" { 3_000_000 } else { 300_000 }));
+    }
+    let iv = rng.bytes(16);
+    for n in ns {
+        let r = s.run(&format!("nonce.cnt {} {}", hex(&iv), n));
+        let mut want = ((n % 65536) as u16).to_be_bytes().to_vec();
+        want.extend_from_slice(&iv[2..12]);
+        if r != hex(&want) {
+            s.oracle_fail("nonce:counting", &format!("call {} of the counting generator hands out {} instead of count {} over the IV", n, r, n % 65536));
+        }
+        let r = s.run(&format!("nonce.inc {}", n));
+        let mut want = n.to_le_bytes().to_vec();
+        want.extend_from_slice(&[0, 0, 0, 0]);
+        if r != hex(&want) {
+            s.oracle_fail("nonce:increasing", &format!("call {} of the increasing generator hands out {}", n, r));
+        }
+    }
+    s.mark_nontrivial();
+}
+
 pub fn generate(s: &mut Session, tier: &str, rng: &mut Rng) {
     let Some(mut cr) = Crafter::new() else {
         s.begin_case("no-driver");
         s.oracle_fail("craft", "the Lean driver could not be started for Spec-side parsing");
         return;
     };
+    nonce_generator_cases(s, tier, rng);
     let sessions = if tier == "thorough" { 2000 } else { 96 };
     for cipher in CIPHERS {
         s.begin_case(&format!("ss:{}", cipher));
